@@ -412,16 +412,19 @@ impl<'a> DocumentBuilder<'a> {
         {
             self.stack.push(Box::new(itf_type));
             true
-        } else if let Some(_enum_ty) = self
-            .enum_type_defs
-            .iter()
-            .find(|object_ty_def| &object_ty_def.name == type_name)
-            .cloned()
-        {
-            false
         } else {
-            todo!("'{:?}' need to implement for union, scalar, ...", type_name);
+            // Enums and custom scalars are leaves. A union has no fields of
+            // its own to put on the stack: `field` handles union-typed fields.
+            false
         }
+    }
+
+    /// Whether `ty` names a union type of the document.
+    pub(crate) fn is_union_ty(&self, ty: &Ty) -> bool {
+        let type_name = ty.name();
+        self.union_type_defs
+            .iter()
+            .any(|union_ty_def| &union_ty_def.name == type_name)
     }
 
     /// Validation requires every fragment definition to be referenced by some
